@@ -77,8 +77,10 @@ def h_alpha(B, kind="negative"):
             B.eq("alpha > 1 behaves as alpha = 1", r.data["singular_values"], ref.data["singular_values"])
 
 
-def h_transform_fault(B, fault="missing-feature-dim", layout="3d"):
+def h_transform_fault(B, fault="missing-feature-dim", layout="3d", restored=False):
     model, X = _fit_eof(B, layout)
+    if restored:
+        model = type(model).deserialize(model.serialize())
     B.covers("transform-time validation")
     n2 = 2
 
@@ -207,6 +209,7 @@ def configs(tier):
     add("h_alpha", "alpha|above one is valid", kind="above-one")
     for f in ("missing-feature-dim", "extra-dim", "renamed-dim", "shifted-feature-coordinate", "reordered-coordinate-different-values", "shorter-feature-dim", "numpy-input", "dataset-instead-of-dataarray", "list-of-two", "no-sample-dim"):
         add("h_transform_fault", f"transform|{f}", fault=f)
+        add("h_transform_fault", f"transform on a deserialised model|{f}", fault=f, restored=True)
     for f in ("dropped-variable", "dataarray-instead-of-dataset", "wrong-list-length", "single-item-for-list"):
         add("h_transform_fault_containers", f"transform|{f}", fault=f)
     for f in ("unknown-mode", "numpy-scores", "extra-dim-is-valid"):
